@@ -148,6 +148,16 @@ ChirpIsDelay ==
     IN REq(RSub(ChirpPhase(par.k, fp, par.f2), ChirpPhase(par.k, fm, par.f2)),
            RNeg(RMul(RMul(RI(2), par.h), DelayI(par.k, RInv(RMul(fp, fm)), InvSq(par.f2)))))
 
+\* the bounded-cost evaluations of Dedisp 1b agree with the exact laws
+FixAgrees ==
+  Post("alg") =>
+    /\ PhaseFixAgrees(par.k, par.f1, par.f2)
+    /\ SampleDelayAgrees(par.k, par.f1, par.f2, par.f3)
+    /\ LET v == ChirpPhaseFix(par.k, par.f1, par.f2)
+           a == CosSinDy(v)
+           b == CosSin(PhaseFixRat(v))
+       IN FClose(a.c, b.c, FromInt(8)) /\ FClose(a.s, b.s, FromInt(8))
+
 View == <<kind, par, res, pc>>
 
 (***************************************************************************)
